@@ -199,4 +199,57 @@ def replay (tr : Trace) (sem : Nat → (Var → Int) → Var → Int) (sel : Nat
     let ρ := replay tr sem sel ρ0 n
     if sel n then fun v => if (evAt tr n).defs.contains v then sem n ρ v else ρ v else ρ
 
+/-! ## Attribute uses: the address-qualified key `'<hex address>_<name>'` and its conversion into
+class-level variable names at the creation of the object
+(`ExecutedAttributeInstruction.combined_attr`, `_add_attribute_uses`, the `arg_address and
+object_creation` block of `check_explicit_data_dependency`).  Strings are `List Char`. -/
+
+def hexChar (d : Nat) : Char :=
+  if d < 10 then Char.ofNat (48 + d) else Char.ofNat (87 + d)
+
+def hexAux : Nat → Nat → List Char → List Char
+  | 0, _, acc => acc
+  | f + 1, n, acc =>
+    if n < 16 then hexChar n :: acc else hexAux f (n / 16) (hexChar (n % 16) :: acc)
+
+/-- Python's `hex(n)` (the fuel `n + 1` is never exhausted; compared with CPython on every case). -/
+def pyHex (n : Nat) : List Char := '0' :: 'x' :: hexAux (n + 1) n []
+
+/-- `combined_attr`: `f"{hex(self.src_address)}_{self.argument}"`. -/
+def attrUseKey (addr : Nat) (name : List Char) : List Char := pyHex addr ++ '_' :: name
+
+/-- `s.split("_")`. -/
+def splitU : List Char → List (List Char)
+  | [] => [[]]
+  | c :: cs =>
+    if c = '_' then [] :: splitU cs
+    else match splitU cs with
+      | [] => [[c]]
+      | h :: t => (c :: h) :: t
+
+/-- `"_".join(parts)`. -/
+def joinU : List (List Char) → List Char
+  | [] => []
+  | [x] => x
+  | x :: y :: r => x ++ '_' :: joinU (y :: r)
+
+/-- `"_".join(use.split("_")[1:])`: the attribute name of a pending attribute use. -/
+def attrNameOfKey (use : List Char) : List Char := joinU (splitU use).tail
+
+/-- `use.startswith(hex(arg_address)) and len(use) > len(hex(arg_address))`. -/
+def attrUseOf (addr : Nat) (use : List Char) : Bool :=
+  (pyHex addr).isPrefixOf use && decide ((pyHex addr).length < use.length)
+
+/-- The conversion at an object creation (`if arg_address and object_creation:`): the pending
+attribute uses on the created object become names of class-level variables to look for
+(`attribute_creation_uses`), and leave `context.attr_uses`.  Result: (names, remaining uses). -/
+def convertAttrUses (addr : Nat) (attrUses : List (List Char)) : List (List Char) × List (List Char) :=
+  if addr = 0 then ([], attrUses)
+  else ((attrUses.filter (attrUseOf addr)).map attrNameOfKey, attrUses.filter (fun u => !attrUseOf addr u))
+
+/-- A different way of cutting the name out of the key (drop the prefix, strip the separator with
+`lstrip('_')`): NOT equivalent — see `attr_name_lstrip_cex`. -/
+def attrNameLstrip (addr : Nat) (use : List Char) : List Char :=
+  (use.drop (pyHex addr).length).dropWhile (· = '_')
+
 end PynguinModel.Slice
